@@ -291,15 +291,15 @@ Proof. intros H. apply (update_labels_spec _ _ _ _ _ H). Qed.
 
 (* ====================== the loop against a loop without index bookkeeping ====================== *)
 (* declarative content of one label update *)
-Definition labels_ok (scores : list Z) (targets : list bool) (thr : Q) (L : list Z) : Prop :=
+Definition labels_ok (desc : bool) (scores : list Z) (targets : list bool) (thr : Q) (L : list Z) : Prop :=
   length L = length scores /\
   forall r, (r < length scores)%nat ->
-    exists q, is_qvalue true (combine scores targets) (nth r scores 0) q /\
+    exists q, is_qvalue desc (combine scores targets) (nth r scores 0) q /\
       (nth r L 0 = 1 <-> nth r targets false = true /\ (q <= thr)%Q) /\
       (nth r L 0 = -1 <-> nth r targets false = false) /\
       (nth r L 0 = 0 <-> nth r targets false = true /\ ~ (q <= thr)%Q).
 
-Lemma update_labels_ok sc tg thr l : update_labels true sc tg thr = Ok l -> labels_ok sc tg thr l.
+Lemma update_labels_ok desc sc tg thr l : update_labels desc sc tg thr = Ok l -> labels_ok desc sc tg thr l.
 Proof.
   intros H. destruct (update_labels_spec _ _ _ _ _ H) as [Hl Hs]. split; [exact Hl|].
   intros r Hr. specialize (Hs r Hr). cbv zeta in Hs. eexists. exact Hs.
@@ -407,7 +407,7 @@ Lemma ref_loop_hist iters : forall ord xs targets thr L last Ls r,
   (forall i Li, nth_error Ls i = Some Li ->
      length Li = length xs /\
      forall L', nth_error Ls (S i) = Some L' ->
-       labels_ok (map (score (learn (handed ord xs Li))) xs) targets thr L').
+       labels_ok true (map (score (learn (handed ord xs Li))) xs) targets thr L').
 Proof.
   induction iters as [|it IH]; intros ord xs targets thr L last Ls r H HL.
   - cbn [ref_loop] in H. injection H as <- <-. split; [intros L0 E; discriminate|].
@@ -446,7 +446,7 @@ Theorem fit_aligned k xs targets start fp sigma shuffle thr mi ov trace res :
       length L = length xs /\
       handed_ok X xs L (if shuffle then sigma else seq 0 (length xs)) tr /\
       forall L', nth_error Ls (S i) = Some L' ->
-        labels_ok (map (score (learn tr)) xs) targets thr L'.
+        labels_ok true (map (score (learn tr)) xs) targets thr L'.
 Proof.
   intros HL Hn Hp H. rewrite (train_ref _ _ _ _ _ _ _ _ _ _ Hp HL Hn) in H. cbv zeta in H.
   fold (ord_of sigma shuffle (length xs)).
@@ -557,3 +557,703 @@ Proof.
 Qed.
 End Invariant.
 End Loop.
+
+(* ====================== any reordering is a selection by an index permutation ====================== *)
+Lemma perm_sel {A} (l' l : list A) :
+  Permutation l' l -> exists pi, Permutation pi (seq 0 (length l)) /\ l' = sel pi l.
+Proof.
+  intros H. induction H as [|x l' l H IH|x y l|l' lm l H1 IH1 H2 IH2].
+  - exists []. split; [constructor|reflexivity].
+  - destruct IH as (pi & Hp & ->). exists (0%nat :: map S pi). split.
+    + cbn [length seq]. constructor. rewrite <- seq_shift. apply Permutation_map. exact Hp.
+    + rewrite (sel_cons 0%nat _ (x :: l) x eq_refl), sel_shift. reflexivity.
+  - exists (1%nat :: 0%nat :: map S (map S (seq 0 (length l)))). split.
+    + cbn [length seq]. rewrite <- !seq_shift. apply perm_swap.
+    + rewrite (sel_cons 1%nat _ (x :: y :: l) y eq_refl), (sel_cons 0%nat _ (x :: y :: l) x eq_refl).
+      rewrite !sel_shift, sel_seq. reflexivity.
+  - destruct IH1 as (p1 & Hp1 & ->). destruct IH2 as (p2 & Hp2 & ->).
+    assert (length (sel p2 l) = length l) as E.
+    { rewrite sel_length by (apply perm_in_range; exact Hp2). apply perm_length. exact Hp2. }
+    rewrite E in Hp1. exists (sel p1 p2). split.
+    + apply sel_perm_idx; assumption.
+    + apply sel_sel; [rewrite (perm_length _ _ Hp2)|]; apply perm_in_range; assumption.
+Qed.
+
+Lemma map_snd_combine {A B} (a : list A) (b : list B) : length a = length b -> map snd (combine a b) = b.
+Proof.
+  revert b; induction a as [|x a IH]; intros [|y b] H; simpl in *; try lia; [reflexivity|].
+  rewrite IH by lia. reflexivity.
+Qed.
+
+Lemma combine_inj {A B} (a a' : list A) (b b' : list B) :
+  length a = length b -> length a' = length b' -> combine a b = combine a' b' -> a = a' /\ b = b'.
+Proof.
+  intros H H' E. split.
+  - rewrite <- (map_fst_combine a b H), <- (map_fst_combine a' b' H'), E. reflexivity.
+  - rewrite <- (map_snd_combine a b H), <- (map_snd_combine a' b' H'), E. reflexivity.
+Qed.
+
+(* ====================== prediction: columns are taken by stored name ====================== *)
+Lemma lookup_cons s y names c0 cols :
+  fit_lookup s (y :: names) (c0 :: cols) = if str_eqb s y then Some c0 else fit_lookup s names cols.
+Proof.
+  unfold fit_lookup. cbn [index_str]. destruct (str_eqb s y); [reflexivity|].
+  destruct (index_str s names); reflexivity.
+Qed.
+
+Lemma lookup_in s names cols c :
+  NoDup names -> length names = length cols ->
+  (fit_lookup s names cols = Some c <-> In (s, c) (combine names cols)).
+Proof.
+  revert cols. induction names as [|y names IH]; intros [|c0 cols] Hnd Hl; simpl in Hl; try lia.
+  - unfold fit_lookup. simpl. split; [discriminate|intros []].
+  - inversion Hnd as [|? ? Hy Hnd']; subst. rewrite lookup_cons. cbn [combine In].
+    destruct (str_eqb s y) eqn:E.
+    + apply b_str_eqb_eq in E. subst y. split.
+      * intros H. injection H as <-. left. reflexivity.
+      * intros [H|H]; [injection H as <-; reflexivity|].
+        exfalso. apply Hy. eapply in_combine_l. exact H.
+    + rewrite (IH cols Hnd') by lia. split; [intros H; right; exact H|].
+      intros [H|H]; [|exact H]. injection H as <- <-. rewrite b_str_eqb_refl in E. discriminate.
+Qed.
+
+Lemma lookup_none s names cols :
+  length names = length cols -> (fit_lookup s names cols = None <-> ~ In s names).
+Proof.
+  revert cols. induction names as [|y names IH]; intros [|c0 cols] Hl; simpl in Hl; try lia.
+  - unfold fit_lookup. simpl. split; [intros _ []|reflexivity].
+  - rewrite lookup_cons. destruct (str_eqb s y) eqn:E.
+    + apply b_str_eqb_eq in E. subst y. split; [discriminate|]. intros H. exfalso. apply H. left. reflexivity.
+    + rewrite (IH cols) by lia. cbn [In]. split.
+      * intros H [H'|H']; [subst y; rewrite b_str_eqb_refl in E; discriminate|exact (H H')].
+      * intros H H'. apply H. right. exact H'.
+Qed.
+
+Lemma assoc_unique {A B} (l : list (A * B)) s c c' :
+  NoDup (map fst l) -> In (s, c) l -> In (s, c') l -> c = c'.
+Proof.
+  induction l as [|[a b] l IH]; intros Hnd H H'; [destruct H|].
+  cbn [map fst] in Hnd. inversion Hnd as [|? ? Ha Hnd']; subst.
+  destruct H as [H|H], H' as [H'|H'].
+  - congruence.
+  - injection H as -> ->. exfalso. apply Ha. apply in_map_iff. exists (s, c'). split; [reflexivity|exact H'].
+  - injection H' as -> ->. exfalso. apply Ha. apply in_map_iff. exists (s, c). split; [reflexivity|exact H].
+  - apply IH; assumption.
+Qed.
+
+Lemma forallb_ext_all {A} (f g : A -> bool) l : (forall x, f x = g x) -> forallb f l = forallb g l.
+Proof. intros H. induction l as [|x l IH]; [reflexivity|]. simpl. rewrite H, IH. reflexivity. Qed.
+
+Section ByName.
+Variables (names names' : list str) (cols cols' : list (list Z)).
+Hypothesis Hnd : NoDup names.
+Hypothesis Hl : length names = length cols.
+Hypothesis Hl' : length names' = length cols'.
+Hypothesis Hperm : Permutation (combine names cols) (combine names' cols').
+
+Lemma byname_names : Permutation names names'.
+Proof.
+  rewrite <- (map_fst_combine names cols Hl), <- (map_fst_combine names' cols' Hl').
+  apply Permutation_map. exact Hperm.
+Qed.
+
+Lemma byname_lookup s : fit_lookup s names' cols' = fit_lookup s names cols.
+Proof.
+  pose proof byname_names as Hn.
+  assert (NoDup names') as Hnd' by (eapply Permutation_NoDup; eassumption).
+  destruct (fit_lookup s names cols) as [c|] eqn:E.
+  - apply (lookup_in _ _ _ _ Hnd' Hl'). apply (Permutation_in _ Hperm).
+    apply (lookup_in _ _ _ _ Hnd Hl). exact E.
+  - apply (lookup_none _ _ _ Hl'). apply (lookup_none _ _ _ Hl) in E.
+    intros H. apply E. apply (Permutation_in _ (Permutation_sym Hn)). exact H.
+Qed.
+
+Lemma byname_select stored : fit_select stored names' cols' = fit_select stored names cols.
+Proof.
+  induction stored as [|s r IH]; [reflexivity|]. cbn [fit_select]. rewrite byname_lookup, IH. reflexivity.
+Qed.
+
+Lemma byname_subset stored :
+  fit_subset names' stored = fit_subset names stored /\ fit_subset stored names' = fit_subset stored names.
+Proof.
+  pose proof byname_names as Hn. unfold fit_subset. split.
+  - destruct (forallb (fun x => mem_str x stored) names) eqn:E.
+    + apply forallb_forall. intros x Hx. rewrite forallb_forall in E. apply E.
+      apply (Permutation_in _ (Permutation_sym Hn)). exact Hx.
+    + destruct (forallb (fun x => mem_str x stored) names') eqn:E'; [|reflexivity].
+      rewrite <- E. symmetry. apply forallb_forall. intros x Hx. rewrite forallb_forall in E'. apply E'.
+      apply (Permutation_in _ Hn). exact Hx.
+  - apply forallb_ext_all. intros x.
+    destruct (mem_str x names) eqn:E.
+    + apply b_mem_str_in. apply (Permutation_in _ Hn). apply b_mem_str_in. exact E.
+    + apply b_mem_str_notin. apply b_mem_str_notin in E. intros H. apply E.
+      apply (Permutation_in _ (Permutation_sym Hn)). exact H.
+Qed.
+End ByName.
+
+Section Decision.
+Variable G : Type.
+Variable score : G -> list Z -> Z.
+Variable coscore : G -> list Z -> Z.
+
+(* C12_by_name: the table may present its feature columns in any order *)
+Theorem decision_by_name trained stored k g names cols names' cols' n :
+  NoDup names -> length names = length cols -> length names' = length cols' ->
+  Permutation (combine names cols) (combine names' cols') ->
+  fit_decision G score coscore trained stored k g names' cols' n
+  = fit_decision G score coscore trained stored k g names cols n.
+Proof.
+  intros Hnd Hl Hl' Hp. unfold fit_decision.
+  destruct (byname_subset names names' cols cols' Hl Hl' Hp stored) as [-> ->].
+  rewrite (byname_select names names' cols cols' Hnd Hl Hl' Hp). reflexivity.
+Qed.
+
+(* a table with another set of feature names is rejected *)
+Theorem decision_wrong_set stored k g names cols n :
+  (exists x, (In x names /\ ~ In x stored) \/ (In x stored /\ ~ In x names)) ->
+  fit_decision G score coscore true stored k g names cols n = Err EValue.
+Proof.
+  intros (x & H). unfold fit_decision. cbn [negb].
+  assert (fit_subset names stored && fit_subset stored names = false) as ->; [|reflexivity].
+  apply andb_false_iff. unfold fit_subset. destruct H as [[Hin Hnot]|[Hin Hnot]]; [left|right].
+  - destruct (forallb (fun y => mem_str y stored) names) eqn:E; [|reflexivity].
+    rewrite forallb_forall in E. specialize (E x Hin). apply b_mem_str_in in E. contradiction.
+  - destruct (forallb (fun y => mem_str y names) stored) eqn:E; [|reflexivity].
+    rewrite forallb_forall in E. specialize (E x Hin). apply b_mem_str_in in E. contradiction.
+Qed.
+
+Lemma select_spec stored names cols :
+  NoDup names -> length names = length cols -> (forall s, In s stored -> In s names) ->
+  exists selc, fit_select stored names cols = Some selc /\
+               Forall2 (fun s c => In (s, c) (combine names cols)) stored selc.
+Proof.
+  intros Hnd Hl. induction stored as [|s r IH]; intros Hsub.
+  - exists []. split; [reflexivity|constructor].
+  - destruct IH as (t & Et & Ft); [intros s' Hs'; apply Hsub; right; exact Hs'|].
+    destruct (fit_lookup s names cols) as [c|] eqn:E.
+    + exists (c :: t). cbn [fit_select]. rewrite E, Et. split; [reflexivity|].
+      constructor; [apply (lookup_in _ _ _ _ Hnd Hl); exact E|exact Ft].
+    + apply (lookup_none _ _ _ Hl) in E. exfalso. apply E. apply Hsub. left. reflexivity.
+Qed.
+
+(* with the right feature set the estimator sees, for every stored name in stored order, the
+   column carrying that name *)
+Theorem decision_selects stored k g names cols n :
+  NoDup names -> length names = length cols ->
+  (forall s, In s stored <-> In s names) ->
+  exists selc, Forall2 (fun s c => In (s, c) (combine names cols)) stored selc /\
+    fit_decision G score coscore true stored k g names cols n
+    = match fit_rows selc n with
+      | Ok rows => fit_get_scores (list Z) G score coscore k g rows
+      | Err e => Err e
+      end.
+Proof.
+  intros Hnd Hl Hset.
+  destruct (select_spec stored names cols Hnd Hl (fun s H => proj1 (Hset s) H)) as (selc & Es & Fs).
+  exists selc. split; [exact Fs|]. unfold fit_decision. cbn [negb].
+  assert (fit_subset names stored && fit_subset stored names = true) as ->.
+  { apply andb_true_iff. unfold fit_subset. split; apply forallb_forall; intros x Hx; apply b_mem_str_in; apply Hset; exact Hx. }
+  cbn [negb]. rewrite Es. reflexivity.
+Qed.
+End Decision.
+
+(* ====================== feature tables ====================== *)
+Section MapM.
+Context {A B : Type}.
+Implicit Types (f g : A -> result B).
+
+Lemma mapM_length f l r : fit_mapM f l = Ok r -> length r = length l.
+Proof.
+  revert r. induction l as [|a l IH]; intros r H; cbn [fit_mapM] in H.
+  - injection H as <-. reflexivity.
+  - destruct (f a) as [b|e]; [|discriminate]. destruct (fit_mapM f l) as [t|e]; [|discriminate].
+    injection H as <-. simpl. rewrite (IH t eq_refl). reflexivity.
+Qed.
+
+Lemma mapM_nth f l r i a :
+  fit_mapM f l = Ok r -> nth_error l i = Some a -> exists b, f a = Ok b /\ nth_error r i = Some b.
+Proof.
+  revert r i. induction l as [|a0 l IH]; intros r i H Hi; [destruct i; discriminate|].
+  cbn [fit_mapM] in H. destruct (f a0) as [b0|e] eqn:E0; [|discriminate].
+  destruct (fit_mapM f l) as [t|e]; [|discriminate]. injection H as <-.
+  destruct i; cbn [nth_error] in *.
+  - injection Hi as <-. exists b0. split; [exact E0|reflexivity].
+  - apply (IH t i eq_refl Hi).
+Qed.
+
+Lemma mapM_ext f g l : (forall a, In a l -> f a = g a) -> fit_mapM f l = fit_mapM g l.
+Proof.
+  induction l as [|a l IH]; intros H; [reflexivity|]. cbn [fit_mapM].
+  rewrite (H a (or_introl eq_refl)), IH; [reflexivity|]. intros a' Ha'. apply H. right. exact Ha'.
+Qed.
+
+Lemma mapM_ok_map f (h : A -> B) l : (forall a, In a l -> f a = Ok (h a)) -> fit_mapM f l = Ok (map h l).
+Proof.
+  induction l as [|a l IH]; intros H; [reflexivity|]. cbn [fit_mapM map].
+  rewrite (H a (or_introl eq_refl)), IH; [reflexivity|]. intros a' Ha'. apply H. right. exact Ha'.
+Qed.
+End MapM.
+
+Lemma mapM_map {A B C} (f : B -> result C) (h : A -> B) l :
+  fit_mapM f (map h l) = fit_mapM (fun a => f (h a)) l.
+Proof. induction l as [|a l IH]; [reflexivity|]. cbn [fit_mapM map]. rewrite IH. reflexivity. Qed.
+
+Definition table_wf (n : nat) (cols : list (list Z)) : Prop := Forall (fun c => length c = n) cols.
+
+Definition row_of (cols : list (list Z)) (i : nat) : list Z := map (fun c => nth i c 0) cols.
+
+Lemma row_at_wf n i cols : table_wf n cols -> (i < n)%nat -> fit_row_at i cols = Some (row_of cols i).
+Proof.
+  intros H Hi. induction H as [|c cols Hc H IH]; [reflexivity|]. cbn [fit_row_at row_of map].
+  rewrite (nth_error_nth' c 0) by lia. fold (row_of cols i). rewrite IH. reflexivity.
+Qed.
+
+Lemma rows_wf n cols : table_wf n cols -> fit_rows cols n = Ok (map (row_of cols) (seq 0 n)).
+Proof.
+  intros H. unfold fit_rows. apply mapM_ok_map. intros i Hi. apply in_seq in Hi.
+  rewrite (row_at_wf n) by (try assumption; lia). reflexivity.
+Qed.
+
+Lemma rows_length cols n rows : fit_rows cols n = Ok rows -> length rows = n.
+Proof. intros H. unfold fit_rows in H. rewrite (mapM_length _ _ _ H). apply seq_length. Qed.
+
+Lemma sel_seq_idx n pi : in_range n pi -> sel pi (seq 0 n) = pi.
+Proof.
+  induction pi as [|i pi IH]; intros H; [reflexivity|]. inversion H as [|? ? Hi Hr]; subst.
+  assert (nth_error (seq 0 n) i = Some i) as E.
+  { rewrite (nth_error_nth' _ 0%nat) by (rewrite seq_length; exact Hi). rewrite seq_nth by exact Hi. reflexivity. }
+  rewrite (sel_cons _ _ _ _ E), (IH Hr). reflexivity.
+Qed.
+
+Lemma map_nth_seq {A} (l : list A) d : map (fun j => nth j l d) (seq 0 (length l)) = l.
+Proof.
+  induction l as [|x l IH]; [reflexivity|]. cbn [length seq map nth]. f_equal.
+  rewrite <- seq_shift, map_map. exact IH.
+Qed.
+
+Lemma table_wf_sel n pi cols : Permutation pi (seq 0 n) -> table_wf n cols -> table_wf n (map (sel pi) cols).
+Proof.
+  intros Hp H. unfold table_wf in *. rewrite Forall_map. eapply Forall_impl; [|exact H].
+  intros c Hc. cbv beta. rewrite sel_length by (rewrite Hc; apply perm_in_range; exact Hp). apply perm_length. exact Hp.
+Qed.
+
+Lemma rows_sel n pi cols :
+  Permutation pi (seq 0 n) -> table_wf n cols ->
+  fit_rows (map (sel pi) cols) n = Ok (sel pi (map (row_of cols) (seq 0 n))).
+Proof.
+  intros Hp H. pose proof (perm_in_range _ _ Hp) as Hr. pose proof (perm_length _ _ Hp) as Hpl.
+  rewrite (rows_wf n) by (apply table_wf_sel; assumption). f_equal.
+  rewrite sel_map, (sel_seq_idx _ _ Hr).
+  rewrite <- (map_nth_seq pi 0%nat) at 2. rewrite Hpl, map_map.
+  apply map_ext_in. intros j Hj. apply in_seq in Hj.
+  unfold row_of. rewrite map_map. apply map_ext_in. intros c Hc.
+  unfold table_wf in H. rewrite Forall_forall in H. specialize (H c Hc).
+  apply nth_sel; [rewrite H; exact Hr|lia].
+Qed.
+
+(* ====================== starting labels follow the rows ====================== *)
+Lemma update_labels_length_t desc sc tg thr l : update_labels desc sc tg thr = Ok l -> length l = length tg.
+Proof.
+  intros H. pose proof (update_labels_length _ _ _ _ _ H) as E. rewrite E.
+  unfold update_labels in H. destruct (Nat.eqb_spec (length sc) (length tg)); [assumption|discriminate].
+Qed.
+
+Lemma existsb_perm {A} (f : A -> bool) l l' : Permutation l l' -> existsb f l = existsb f l'.
+Proof.
+  intros H. induction H as [|x l l' H IH|x y l|l l' l'' H1 IH1 H2 IH2]; simpl.
+  - reflexivity.
+  - rewrite IH. reflexivity.
+  - destruct (f x), (f y); reflexivity.
+  - congruence.
+Qed.
+
+Lemma both_classes (t : list bool) : existsb (fun b => b) t = true -> existsb negb t = true -> length t <> 1%nat.
+Proof. destruct t as [|[] [|b t]]; simpl; intros; try discriminate; lia. Qed.
+
+Section StartSel.
+Variables (n : nat) (pi : list nat) (cols : list (list Z)) (targets : list bool) (thr : Q).
+Hypothesis Hp : Permutation pi (seq 0 n).
+Hypothesis Hwf : table_wf n cols.
+Hypothesis HT : length targets = n.
+
+Lemma col_update_sel desc col :
+  length col = n ->
+  update_labels desc (sel pi col) (sel pi targets) thr
+  = match update_labels desc col targets thr with Ok l => Ok (sel pi l) | Err e => Err e end.
+Proof. intros Hc. apply update_labels_sel; rewrite Hc; assumption. Qed.
+
+Lemma col_count_sel desc col :
+  length col = n ->
+  match update_labels desc (sel pi col) (sel pi targets) thr with Ok l => Ok (fit_count1 l) | Err e => Err e end
+  = match update_labels desc col targets thr with Ok l => Ok (fit_count1 l) | Err e => Err e end.
+Proof.
+  intros Hc. rewrite (col_update_sel desc col Hc).
+  destruct (update_labels desc col targets thr) as [l|e] eqn:E; [|reflexivity].
+  rewrite count1_sel; [reflexivity|]. rewrite (update_labels_length_t _ _ _ _ _ E), HT. exact Hp.
+Qed.
+
+Lemma counts_sel desc :
+  fit_counts desc (map (sel pi) cols) (sel pi targets) thr = fit_counts desc cols targets thr.
+Proof.
+  unfold fit_counts. rewrite mapM_map. apply mapM_ext. intros col Hc.
+  apply col_count_sel. unfold table_wf in Hwf. rewrite Forall_forall in Hwf. apply Hwf. exact Hc.
+Qed.
+
+Definition bmap (b : nat * Z * list Z * bool) : nat * Z * list Z * bool :=
+  match b with (i, c, l, d) => (i, c, sel pi l, d) end.
+
+Lemma best_pass_sel desc best :
+  fit_best_pass desc (map (sel pi) cols) (sel pi targets) thr (option_map bmap best)
+  = match fit_best_pass desc cols targets thr best with
+    | Ok o => Ok (option_map bmap o) | Err e => Err e end.
+Proof.
+  unfold fit_best_pass. rewrite counts_sel.
+  destruct (fit_counts desc cols targets thr) as [counts|e]; [|reflexivity].
+  destruct (fit_idxmax counts) as [i|]; [|reflexivity].
+  destruct (nth_error counts i) as [c|]; [|reflexivity].
+  rewrite nth_error_map. destruct (nth_error cols i) as [col|] eqn:Ec; cbn [option_map]; [|reflexivity].
+  assert (length col = n) as Hc.
+  { unfold table_wf in Hwf. rewrite Forall_forall in Hwf. apply Hwf. eapply nth_error_In. exact Ec. }
+  assert (match option_map bmap best with Some (_, b, _, _) => b | None => 0 end
+          = match best with Some (_, b, _, _) => b | None => 0 end) as ->.
+  { destruct best as [[[[? ?] ?] ?]|]; reflexivity. }
+  destruct (_ <? c); [|reflexivity].
+  rewrite (col_update_sel desc col Hc).
+  destruct (update_labels desc col targets thr); reflexivity.
+Qed.
+
+Lemma best_feature_sel :
+  fit_best_feature (map (sel pi) cols) (sel pi targets) thr
+  = match fit_best_feature cols targets thr with Ok b => Ok (bmap b) | Err e => Err e end.
+Proof.
+  unfold fit_best_feature.
+  pose proof (best_pass_sel true None) as H1. cbn [option_map] in H1. rewrite H1.
+  destruct (fit_best_pass true cols targets thr None) as [b1|e]; [|reflexivity].
+  rewrite (best_pass_sel false b1).
+  destruct (fit_best_pass false cols targets thr b1) as [[b|]|e]; reflexivity.
+Qed.
+
+Lemma direction_labels_sel col :
+  length col = n ->
+  fit_direction_labels (sel pi col) (sel pi targets) thr
+  = match fit_direction_labels col targets thr with
+    | Ok (l, c, d) => Ok (sel pi l, c, d) | Err e => Err e end.
+Proof.
+  intros Hc. unfold fit_direction_labels. rewrite !(col_update_sel _ col Hc).
+  destruct (update_labels true col targets thr) as [d|e] eqn:Ed.
+  2:{ destruct (update_labels false col targets thr); reflexivity. }
+  destruct (update_labels false col targets thr) as [a|e] eqn:Ea; [|reflexivity].
+  rewrite !count1_sel
+    by (rewrite ?(update_labels_length_t _ _ _ _ _ Ed), ?(update_labels_length_t _ _ _ _ _ Ea), HT; exact Hp).
+  destruct (fit_count1 a <=? fit_count1 d); reflexivity.
+Qed.
+
+Lemma lookup_sel name names :
+  fit_lookup name names (map (sel pi) cols) = option_map (sel pi) (fit_lookup name names cols).
+Proof.
+  unfold fit_lookup. destruct (index_str name names) as [i|]; [|reflexivity]. apply nth_error_map.
+Qed.
+End StartSel.
+
+Section Table.
+Variable G : Type.
+Variable learn : list (list Z * bool) -> G.
+Variable score : G -> list Z -> Z.
+Variable coscore : G -> list Z -> Z.
+
+Lemma starting_sel n pi k st names cols rows targets thr :
+  Permutation pi (seq 0 n) -> table_wf n cols -> length targets = n -> length rows = n -> n <> 0%nat ->
+  fit_starting G score coscore k st names (map (sel pi) cols) (sel pi rows) (sel pi targets) thr
+  = match fit_starting G score coscore k st names cols rows targets thr with
+    | Ok (l, c, d, b) => Ok (sel pi l, c, d, b)
+    | Err e => Err e
+    end.
+Proof.
+  intros Hp Hwf HT HR Hn0. unfold fit_starting.
+  assert (forall l, length l = n -> fit_count1 (sel pi l) = fit_count1 l) as Hcnt.
+  { intros l Hl. apply count1_sel. rewrite Hl. exact Hp. }
+  destruct st as [|name|g0].
+  - rewrite (best_feature_sel n pi cols targets thr Hp Hwf HT).
+    destruct (fit_best_feature cols targets thr) as [[[[i c] l] d]|e] eqn:E; [|reflexivity].
+    cbn [bmap].
+    assert (length l = n) as Hl.
+    { unfold fit_best_feature in E.
+      assert (forall desc best o, fit_best_pass desc cols targets thr best = Ok o ->
+                (forall b, best = Some b -> length (snd (fst b)) = n) ->
+                forall b, o = Some b -> length (snd (fst b)) = n) as Pass.
+      { intros desc best o Hpass Hbest b ->. unfold fit_best_pass in Hpass.
+        destruct (fit_counts desc cols targets thr); [|discriminate].
+        destruct (fit_idxmax l0); [|discriminate].
+        destruct (nth_error l0 n0); [|discriminate]. destruct (nth_error cols n0); [|discriminate].
+        destruct (_ <? z).
+        - destruct (update_labels desc l1 targets thr) as [l2|] eqn:EU; [|discriminate].
+          injection Hpass as <-. cbn [fst snd]. rewrite (update_labels_length_t _ _ _ _ _ EU). exact HT.
+        - injection Hpass as ->. apply Hbest. reflexivity. }
+      destruct (fit_best_pass true cols targets thr None) as [b1|] eqn:E1; [|discriminate].
+      destruct (fit_best_pass false cols targets thr b1) as [[b|]|] eqn:E2; try discriminate.
+      injection E as ->.
+      apply (Pass false b1 _ E2 (fun b Hb => Pass true None _ E1 (fun b' Hb' => ltac:(discriminate)) b Hb) _ eq_refl). }
+    rewrite (Hcnt l Hl). destruct (fit_count1 l =? 0); reflexivity.
+  - rewrite lookup_sel. destruct (fit_lookup name names cols) as [col|] eqn:E; cbn [option_map]; [|reflexivity].
+    assert (length col = n) as Hc.
+    { unfold fit_lookup in E. destruct (index_str name names); [|discriminate].
+      unfold table_wf in Hwf. rewrite Forall_forall in Hwf. apply Hwf. eapply nth_error_In. exact E. }
+    rewrite (direction_labels_sel n pi targets thr Hp HT col Hc).
+    destruct (fit_direction_labels col targets thr) as [[[l c] d]|e] eqn:Ed; [|reflexivity].
+    assert (length l = n) as Hl.
+    { unfold fit_direction_labels in Ed.
+      destruct (update_labels true col targets thr) as [dl|] eqn:E1; [|discriminate].
+      destruct (update_labels false col targets thr) as [al|] eqn:E2; [|discriminate].
+      destruct (_ <=? _); injection Ed as <- _ _;
+        [rewrite (update_labels_length_t _ _ _ _ _ E1)|rewrite (update_labels_length_t _ _ _ _ _ E2)]; exact HT. }
+    rewrite (Hcnt l Hl). destruct (fit_count1 l =? 0); reflexivity.
+  - assert (match k with FitProba2 => False | _ => True end ->
+            fit_pre_scores G score coscore k g0 (sel pi rows) = sel pi (map (score g0) rows)
+            /\ fit_pre_scores G score coscore k g0 rows = map (score g0) rows) as Hmap.
+    { intros Hk. destruct k; try contradiction; cbn [fit_pre_scores]; rewrite sel_map; split; reflexivity. }
+    destruct k.
+    1,3: destruct (Hmap I) as [-> ->];
+         rewrite update_labels_sel by (rewrite map_length, ?HR; assumption);
+         destruct (update_labels true (map (score g0) rows) targets thr) as [l|e] eqn:E; [|reflexivity];
+         rewrite (Hcnt l) by (rewrite (update_labels_length_t _ _ _ _ _ E); exact HT);
+         destruct (fit_count1 l =? 0); reflexivity.
+    (* two-column predict_proba flattened: twice as many scores as rows, rejected either way *)
+    assert (forall rs tg, length rs = n -> length tg = n ->
+              update_labels true (fit_pre_scores G score coscore FitProba2 g0 rs) tg thr = Err EValue) as Bad.
+    { intros rs tg Hrs Htg. unfold update_labels.
+      assert (length (fit_pre_scores G score coscore FitProba2 g0 rs) = (2 * n)%nat) as ->.
+      { cbn [fit_pre_scores]. rewrite <- Hrs. clear. induction rs as [|x rs IH]; [reflexivity|].
+        cbn [flat_map app length]. rewrite IH. lia. }
+      rewrite Htg. destruct (Nat.eqb_spec (2 * n) n); [lia|reflexivity]. }
+    pose proof (perm_in_range _ _ Hp) as Hr. pose proof (perm_length _ _ Hp) as Hpl.
+    rewrite (Bad (sel pi rows) (sel pi targets))
+      by (rewrite sel_length by (rewrite ?HR, ?HT; exact Hr); exact Hpl).
+    rewrite (Bad rows targets HR HT). reflexivity.
+Qed.
+
+(* where the starting labels come from: the label rule applied to some score vector *)
+Lemma starting_spec k st names cols rows targets thr l c d b :
+  fit_starting G score coscore k st names cols rows targets thr = Ok (l, c, d, b) ->
+  (exists desc sc, update_labels desc sc targets thr = Ok l) /\ fit_count1 l <> 0.
+Proof.
+  unfold fit_starting. intros H.
+  match type of H with (match ?S with _ => _ end) = _ => destruct S as [[[[l0 c0] d0] b0]|e] eqn:ES end; [|discriminate].
+  destruct (Z.eqb_spec (fit_count1 l0) 0) as [|Hne]; [discriminate|]. injection H as -> -> -> ->.
+  split; [|exact Hne].
+  destruct st as [|name|g0].
+  - destruct (fit_best_feature cols targets thr) as [[[[i c1] l1] d1]|] eqn:E; [|discriminate].
+    injection ES as -> -> _ _. unfold fit_best_feature in E.
+    assert (forall desc best o, fit_best_pass desc cols targets thr best = Ok o ->
+              (forall x, best = Some x -> exists ds sc, update_labels ds sc targets thr = Ok (snd (fst x))) ->
+              forall x, o = Some x -> exists ds sc, update_labels ds sc targets thr = Ok (snd (fst x))) as Pass.
+    { intros desc best o Hpass Hbest x ->. unfold fit_best_pass in Hpass.
+      destruct (fit_counts desc cols targets thr); [|discriminate].
+      destruct (fit_idxmax l0); [|discriminate].
+      destruct (nth_error l0 n); [|discriminate]. destruct (nth_error cols n) as [col|]; [|discriminate].
+      destruct (_ <? z).
+      - destruct (update_labels desc col targets thr) as [l2|] eqn:EU; [|discriminate].
+        injection Hpass as <-. cbn [fst snd]. exists desc, col. exact EU.
+      - injection Hpass as ->. apply Hbest. reflexivity. }
+    destruct (fit_best_pass true cols targets thr None) as [b1|] eqn:E1; [|discriminate].
+    destruct (fit_best_pass false cols targets thr b1) as [[x|]|] eqn:E2; try discriminate.
+    injection E as ->.
+    apply (Pass false b1 _ E2 (fun y Hy => Pass true None _ E1 (fun y' Hy' => ltac:(discriminate)) y Hy) _ eq_refl).
+  - destruct (fit_lookup name names cols) as [col|]; [|discriminate].
+    destruct (fit_direction_labels col targets thr) as [[[l1 c1] d1]|] eqn:Ed; [|discriminate].
+    injection ES as -> _ _ _. unfold fit_direction_labels in Ed.
+    destruct (update_labels true col targets thr) as [dl|] eqn:E1; [|discriminate].
+    destruct (update_labels false col targets thr) as [al|] eqn:E2; [|discriminate].
+    destruct (_ <=? _); injection Ed as <- _ _; [exists true, col|exists false, col]; assumption.
+  - destruct (update_labels true (fit_pre_scores G score coscore k g0 rows) targets thr) as [l1|] eqn:E; [|discriminate].
+    injection ES as -> _ _ _. exists true, (fit_pre_scores G score coscore k g0 rows). exact E.
+Qed.
+End Table.
+
+(* ====================== Model.fit on a feature table ====================== *)
+Section Fit.
+Variable G : Type.
+Variable learn : list (list Z * bool) -> G.
+Variable score : G -> list Z -> Z.
+Variable coscore : G -> list Z -> Z.
+
+(* C12_aligned for Model.fit *)
+Theorem fit_fit_aligned k st names cols targets sigma shuffle thr mi ov trace res :
+  Permutation sigma (seq 0 (length targets)) ->
+  fit_fit G learn score coscore true k st names cols targets sigma shuffle thr mi ov = (trace, res) ->
+  trace = [] \/
+  exists rows Ls,
+    fit_rows cols (length targets) = Ok rows /\ length Ls = length trace /\
+    (forall L, nth_error Ls 0 = Some L -> exists desc sc, labels_ok desc sc targets thr L) /\
+    forall i L tr, nth_error Ls i = Some L -> nth_error trace i = Some tr ->
+      length L = length targets /\
+      handed_ok (list Z) rows L (if shuffle then sigma else seq 0 (length targets)) tr /\
+      forall L', nth_error Ls (S i) = Some L' ->
+        labels_ok true (map (score (learn tr)) rows) targets thr L'.
+Proof.
+  intros Hp H. unfold fit_fit in H.
+  destruct (existsb (fun t => t) targets) eqn:ET; cbn [negb] in H; [|injection H as <- _; left; reflexivity].
+  destruct (existsb negb targets) eqn:ED; cbn [negb] in H; [|injection H as <- _; left; reflexivity].
+  pose proof (both_classes targets ET ED) as Hn.
+  destruct (fit_rows cols (length targets)) as [rows|e] eqn:ER; [|injection H as <- _; left; reflexivity].
+  pose proof (rows_length _ _ _ ER) as HR.
+  destruct (fit_starting G score coscore k st names cols rows targets thr) as [[[[start fp] d] b]|e] eqn:ES;
+    [|injection H as <- _; left; reflexivity].
+  destruct (starting_spec _ _ _ _ _ _ _ _ _ _ _ _ _ _ ES) as [(desc & sc & EU) _].
+  assert (length start = length rows) as HL by (rewrite (update_labels_length_t _ _ _ _ _ EU), HR; reflexivity).
+  destruct (fit_train (list Z) G learn score coscore k rows targets start fp sigma shuffle thr mi ov)
+    as [tr r] eqn:EF.
+  injection H as <- _. right.
+  rewrite <- HR in Hp, Hn.
+  destruct (fit_aligned _ _ learn score coscore _ _ _ _ _ _ _ _ _ _ _ _ HL Hn Hp EF) as (Ls & Hlen & H0 & HS).
+  exists rows, Ls. split; [reflexivity|]. split; [exact Hlen|]. split.
+  - intros L EL. rewrite (H0 L EL). exists desc, sc. apply update_labels_ok. exact EU.
+  - intros i L tr0 EL Etr. destruct (HS i L tr0 EL Etr) as (A & B & C). rewrite HR in A, B.
+    split; [exact A|]. split; [exact B|exact C].
+Qed.
+
+(* C12_order_invariant for Model.fit: rows of the table permuted by [pi], any seeds, shuffle on or off *)
+Theorem fit_fit_order_invariant :
+  (forall l l', Permutation l l' -> learn l = learn l') ->
+  forall k st names cols targets pi sigma1 sh1 sigma2 sh2 thr mi ov,
+  table_wf (length targets) cols ->
+  Permutation pi (seq 0 (length targets)) ->
+  Permutation sigma1 (seq 0 (length targets)) -> Permutation sigma2 (seq 0 (length targets)) ->
+  forall tr1 r1 tr2 r2,
+  fit_fit G learn score coscore true k st names (map (sel pi) cols) (sel pi targets) sigma1 sh1 thr mi ov = (tr1, r1) ->
+  fit_fit G learn score coscore true k st names cols targets sigma2 sh2 thr mi ov = (tr2, r2) ->
+  r1 = r2 /\ Forall2 (@Permutation (list Z * bool)) tr1 tr2.
+Proof.
+  intros Hinv k st names cols targets pi sigma1 sh1 sigma2 sh2 thr mi ov Hwf Hp H1 H2 tr1 r1 tr2 r2 E1 E2.
+  pose proof (perm_in_range _ _ Hp) as Hr. pose proof (perm_length _ _ Hp) as Hpl.
+  assert (length (sel pi targets) = length targets) as LT by (rewrite sel_length by exact Hr; exact Hpl).
+  unfold fit_fit in E1, E2. rewrite LT in E1.
+  rewrite !(existsb_perm _ _ _ (sel_perm pi targets Hp)) in E1.
+  destruct (existsb (fun t => t) targets) eqn:ET; cbn [negb] in E1, E2;
+    [|injection E1 as <- <-; injection E2 as <- <-; split; [reflexivity|constructor]].
+  destruct (existsb negb targets) eqn:ED; cbn [negb] in E1, E2;
+    [|injection E1 as <- <-; injection E2 as <- <-; split; [reflexivity|constructor]].
+  pose proof (both_classes targets ET ED) as Hn.
+  rewrite (rows_sel _ _ _ Hp Hwf) in E1. rewrite (rows_wf _ _ Hwf) in E2.
+  set (rows := map (row_of cols) (seq 0 (length targets))) in *.
+  assert (length rows = length targets) as HR by (unfold rows; rewrite map_length, seq_length; reflexivity).
+  assert (length targets <> 0%nat) as Hn0 by (destruct targets; [discriminate|simpl; lia]).
+  rewrite (starting_sel G score coscore _ pi k st names cols rows targets thr Hp Hwf eq_refl HR Hn0) in E1.
+  destruct (fit_starting G score coscore k st names cols rows targets thr) as [[[[start fp] d] b]|e] eqn:ES;
+    [|injection E1 as <- <-; injection E2 as <- <-; split; [reflexivity|constructor]].
+  destruct (starting_spec _ _ _ _ _ _ _ _ _ _ _ _ _ _ ES) as [(desc & sc & EU) _].
+  assert (length start = length rows) as HL by (rewrite (update_labels_length_t _ _ _ _ _ EU), HR; reflexivity).
+  destruct (fit_train (list Z) G learn score coscore k (sel pi rows) (sel pi targets) (sel pi start) fp sigma1 sh1 thr mi ov)
+    as [t1 g1] eqn:F1.
+  destruct (fit_train (list Z) G learn score coscore k rows targets start fp sigma2 sh2 thr mi ov)
+    as [t2 g2] eqn:F2.
+  injection E1 as <- <-. injection E2 as <- <-.
+  rewrite <- HR in Hp, H1, H2, Hn.
+  destruct (fit_order_invariant _ _ learn score coscore Hinv k rows targets start fp pi sigma1 sh1 sigma2 sh2 thr mi ov
+              HL (eq_sym HR) Hn Hp H1 H2 _ _ _ _ F1 F2) as [-> HF].
+  split; [reflexivity|exact HF].
+Qed.
+End Fit.
+
+(* ====================== the code before the F7 repair does not satisfy the property ====================== *)
+(* four rows, identified by their position; a fixed score per row; targets T T T D; the generator
+   swaps rows 2 and 3; shuffle off.  After the first iteration the un-shuffle/re-shuffle index
+   operations hand target row 2 to the estimator as a negative and drop the decoy row 3. *)
+Definition cx_scores : list Z := [10; 9; 1; 0].
+Definition cx_run (patched : bool) :=
+  (if patched then fit_train else fit_train_unpatched)
+    nat unit (fun _ => tt) (fun _ r => nth r cx_scores 0) (fun _ _ => 0)
+    FitDF [0; 1; 2; 3]%nat [true; true; true; false] [1; 1; 1; -1] 3 [0; 1; 3; 2]%nat false (1 # 2) 2%nat true.
+
+Lemma unshuffled_refuted :
+  exists tr, nth_error (fst (cx_run false)) 1 = Some tr /\ In (2%nat, false) tr /\ ~ In (3%nat, false) tr.
+Proof.
+  eexists. split; [vm_compute; reflexivity|]. split; [simpl; tauto|].
+  simpl. intros H. repeat (destruct H as [H|H]; [discriminate H|]). exact H.
+Qed.
+
+Lemma patched_not_refuted :
+  fst (cx_run true) = [[(0%nat, true); (1%nat, true); (2%nat, true); (3%nat, false)];
+                       [(0%nat, true); (1%nat, true); (2%nat, true); (3%nat, false)]].
+Proof. vm_compute. reflexivity. Qed.
+
+(* ====================== order invariance stated for arbitrary reorderings of the rows ====================== *)
+Theorem fit_order_invariant_perm (X G : Type) (learn : list (X * bool) -> G) (score coscore : G -> X -> Z) :
+  (forall l l', Permutation l l' -> learn l = learn l') ->
+  forall k xs targets start xs' targets' start' fp sigma1 sh1 sigma2 sh2 thr mi ov,
+  length targets = length xs -> length start = length xs ->
+  length targets' = length xs' -> length start' = length xs' -> length xs <> 1%nat ->
+  Permutation (combine xs' (combine targets' start')) (combine xs (combine targets start)) ->
+  Permutation sigma1 (seq 0 (length xs)) -> Permutation sigma2 (seq 0 (length xs)) ->
+  forall tr1 r1 tr2 r2,
+  fit_train X G learn score coscore k xs' targets' start' fp sigma1 sh1 thr mi ov = (tr1, r1) ->
+  fit_train X G learn score coscore k xs targets start fp sigma2 sh2 thr mi ov = (tr2, r2) ->
+  r1 = r2 /\ Forall2 (@Permutation (X * bool)) tr1 tr2.
+Proof.
+  intros Hinv k xs targets start xs' targets' start' fp sigma1 sh1 sigma2 sh2 thr mi ov
+         HT HL HT' HL' Hn HP H1 H2 tr1 r1 tr2 r2 E1 E2.
+  destruct (perm_sel _ _ HP) as (pi & Hp & E).
+  assert (length (combine xs (combine targets start)) = length xs) as Lc
+    by (rewrite !combine_length, HT, HL, !Nat.min_id; reflexivity).
+  rewrite Lc in Hp.
+  pose proof (perm_in_range _ _ Hp) as Hr. pose proof (perm_length _ _ Hp) as Hpl.
+  rewrite sel_combine in E by (rewrite combine_length, HT, HL, Nat.min_id; reflexivity).
+  rewrite (sel_combine pi targets start) in E by (rewrite HT, HL; reflexivity).
+  assert (forall A (l : list A), length l = length xs -> length (sel pi l) = length xs) as Ls.
+  { intros A l Hl. rewrite sel_length by (rewrite Hl; exact Hr). exact Hpl. }
+  apply combine_inj in E;
+    [|rewrite combine_length, HT', HL', Nat.min_id; reflexivity
+     |rewrite combine_length, !Ls by (first [assumption|reflexivity]); rewrite Nat.min_id; reflexivity].
+  destruct E as [-> E].
+  apply combine_inj in E; [|rewrite HT', HL'; reflexivity|rewrite !Ls by (first [assumption|reflexivity]); reflexivity].
+  destruct E as [-> ->].
+  exact (fit_order_invariant X G learn score coscore Hinv k xs targets start fp pi sigma1 sh1 sigma2 sh2 thr mi ov
+           HL HT Hn Hp H1 H2 _ _ _ _ E1 E2).
+Qed.
+
+(* ====================== reading handed_ok ====================== *)
+Lemma handed_ok_sound X xs L idx tr p :
+  handed_ok X xs L idx tr -> In p tr ->
+  exists r, In r idx /\ nth r L 0 <> 0 /\ nth_error xs r = Some (fst p) /\ snd p = (nth r L 0 =? 1).
+Proof.
+  unfold handed_ok. remember (filter (fun r => negb (nth r L 0 =? 0)) idx) as rs eqn:Ers.
+  intros H Hp.
+  assert (exists r, In r rs /\ nth_error xs r = Some (fst p) /\ snd p = (nth r L 0 =? 1)) as (r & Hr & A & B).
+  { clear Ers. revert Hp. induction H as [|r q rs0 tr0 Hrq H IH]; intros Hp; [destruct Hp|].
+    destruct Hp as [<-|Hp].
+    - exists r. split; [left; reflexivity|exact Hrq].
+    - destruct (IH Hp) as (r' & Hr' & Hrest). exists r'. split; [right; exact Hr'|exact Hrest]. }
+  rewrite Ers in Hr. apply filter_In in Hr. destruct Hr as [Hi Hb].
+  exists r. split; [exact Hi|]. split; [|split; assumption].
+  destruct (Z.eqb_spec (nth r L 0) 0); [discriminate|assumption].
+Qed.
+
+Lemma handed_ok_complete X xs L idx tr r :
+  handed_ok X xs L idx tr -> In r idx -> nth r L 0 <> 0 ->
+  exists p, In p tr /\ nth_error xs r = Some (fst p) /\ snd p = (nth r L 0 =? 1).
+Proof.
+  unfold handed_ok. intros H Hi Hn.
+  assert (In r (filter (fun r => negb (nth r L 0 =? 0)) idx)) as Hr.
+  { apply filter_In. split; [exact Hi|]. destruct (Z.eqb_spec (nth r L 0) 0); [contradiction|reflexivity]. }
+  remember (filter (fun r => negb (nth r L 0 =? 0)) idx) as rs eqn:Ers. clear Ers.
+  revert Hr. induction H as [|r0 q rs0 tr Hrq H IH]; intros Hr; [destruct Hr|].
+  destruct Hr as [->|Hr].
+  - exists q. split; [left; reflexivity|exact Hrq].
+  - destruct (IH Hr) as (p & Hp & Hrest). exists p. split; [right; exact Hp|exact Hrest].
+Qed.
+
+(* predictions follow the rows *)
+Lemma get_scores_sel X G (score coscore : G -> X -> Z) k g pi xs :
+  length xs <> 1%nat -> Permutation pi (seq 0 (length xs)) ->
+  fit_get_scores X G score coscore k g (sel pi xs)
+  = match fit_get_scores X G score coscore k g xs with Ok s => Ok (sel pi s) | Err e => Err e end.
+Proof.
+  intros Hn Hp. rewrite !get_scores_ok; [rewrite sel_map; reflexivity|exact Hn|].
+  rewrite sel_length by (apply perm_in_range; exact Hp). rewrite (perm_length _ _ Hp). exact Hn.
+Qed.
+
+(* the order-independent recording estimator of the harness is order-independent *)
+Lemma demo_learn_invariant idc kk l l' : Permutation l l' -> fit_demo_learn 0 idc kk l = fit_demo_learn 0 idc kk l'.
+Proof.
+  intros H. unfold fit_demo_learn. f_equal.
+  induction H as [|x l l' H IH|x y l|l l' l'' H1 IH1 H2 IH2]; cbn [fold_right]; lia.
+Qed.
